@@ -64,6 +64,33 @@ class Impl:
         self.builtin_names = sorted(self.interp.builtin)
         self.messages: T.List[str] = []
         self._orig_log = mlog.log
+        # observe every method call on a primitive holder (receiver, arguments, result) from outside
+        self.calls: T.List[T.Tuple[T.Any, str, T.Any, T.Any, T.Any]] = []
+        self.record_calls = False
+        from mesonbuild.interpreterbase.baseobjects import ObjectHolder
+        self._IO = InterpreterObject
+        self._orig_method_call = InterpreterObject.method_call
+        outer = self
+        orig = self._orig_method_call
+
+        def method_call(obj: T.Any, method_name: str, args: T.Any, kwargs: T.Any) -> T.Any:
+            if not outer.record_calls or not isinstance(obj, ObjectHolder) or len(outer.calls) > 400:
+                return orig(obj, method_name, args, kwargs)
+            try:
+                snap = (outer.norm(obj.held_object), method_name, outer.norm(list(args)), outer.norm(dict(kwargs)))
+            except Exception:
+                return orig(obj, method_name, args, kwargs)
+            try:
+                res = orig(obj, method_name, args, kwargs)
+            except Exception as e:
+                outer.calls.append(snap + (('error', type(e).__name__),))
+                raise
+            try:
+                outer.calls.append(snap + (('ok', outer.norm(res)),))
+            except Exception:
+                pass
+            return res
+        InterpreterObject.method_call = method_call
 
         def capture(*args: T.Any, **kw: T.Any) -> None:
             if args and isinstance(args[0], mlog.AnsiDecorator) and args[0].text == 'Message:':
@@ -71,6 +98,7 @@ class Impl:
         mlog.log = capture
 
     def close(self) -> None:
+        self._IO.method_call = self._orig_method_call
         self.mlog.log = self._orig_log
         self.mlog._logger.log_disable_stdout = False
         common.rmtree(self.dir)
@@ -86,6 +114,7 @@ class Impl:
         it.tmp_meson_version = None
         it.current_node = self.mparser.BaseNode(-1, -1, 'sentinel')
         self.messages = []
+        self.calls = []
 
     def reset_tree(self, files: T.Dict[str, str]) -> None:
         """a fresh source tree: the other build files (directory relative to the source root -> text) are
